@@ -40,7 +40,24 @@ def explore(acc, space, label, make_bodies, expected, bound, describe,
         acc.outcome('%s-%r-%r' % (space, expected['A'], expected['B']))
     stats = {'executions': 0}
     for first in firsts:
-        # the first traced execution of a process is thrown away (see C20)
-        sched.Execution(first=first, preemptions=[], **make()).run()
-        sched.explore(make, first, bound, check, (), None, None, stats)
+        try:
+            # the first traced execution of a process is thrown away (see
+            # C20)
+            sched.Execution(first=first, preemptions=[], **make()).run()
+            sched.explore(make, first, bound, check, (), None, None, stats)
+        except sched.Divergence as e:
+            # Every execution starts from FRESH shared objects (make_bodies),
+            # so replaying the prefix of a schedule must take the library
+            # through the same lines.  If it does not, the library carries
+            # state from one execution into the next - module- or class-level
+            # state that a sequential property has no room for.  (On the tree
+            # the harness was written against no replay diverges.)
+            acc.case(space, True)
+            acc.violation(
+                '%s|%s|state-carried-between-executions' % (space, label),
+                'two threads sharing one enforcer / parser: replaying a '
+                'schedule prefix on freshly built objects took another path '
+                'through the library (%s) - state survives from one '
+                'execution into the next' % (e,),
+                {'label': label, 'first': first}, 'same path', str(e), space)
     return stats['executions']
